@@ -59,4 +59,60 @@ class C03(ExtBase):
         return cases
 
 
+from metabase import MetaBase
+
+
+class C03Geom(MetaBase):
+    """the partition clause on the accessors themselves, for geometries far too large to extract: totals around and above
+    4 GiB and 2^40, piece lengths that are no power of two or do not fit 32 bits, one to three files; the real
+    Metainfo::piece_length / total_length / file_piece_ranges of the first and last pieces against the model and against
+    the partition read from the dictionary"""
+    id = "C03"
+    model_targets = ["Pack.vo", "Corr/C17.vo"]
+    coq_header = ("From Rdest Require Import Base BCodec DeepFinder Metainfo Corr.MetaCase Corr.C17.\nOpen Scope N_scope.\n"
+                  "Definition codes := codes03g.\n")
+    corr_name = "Metainfo accessors on large geometries vs Metainfo.v"
+    classes = {}
+    assumptions = []
+    rule = ""
+
+    def doc(self, pl, lens):
+        total = sum(lens)
+        n = -(-total // pl)
+        pieces = b"".join(bytes([65 + (i % 26)]) * 20 for i in range(n))
+        if len(lens) == 1:
+            files = b"6:lengthi%de" % lens[0]
+        else:
+            files = b"5:filesl" + b"".join(b"d6:lengthi%de4:path2:f%dee" % (l, k) for k, l in enumerate(lens)) + b"e"
+        info = b"d" + files + b"4:name1:n12:piece lengthi%de6:pieces%d:" % (pl, len(pieces)) + pieces + b"e"
+        return b"d8:announce3:URL4:info" + info + b"e"
+
+    def mkg(self, pl, lens, kind):
+        d = self.doc(pl, lens)
+        return Case("meta %s" % d.hex(), kind, {"pl": pl, "lens": lens})
+
+    def corpus(self):
+        G = 2 ** 30
+        return [self.mkg(3 * 2 ** 20, [5 * G + 12345], "huge"), self.mkg(5000000, [4 * G, 7], "huge"),
+                self.mkg(2 ** 32, [2 ** 33 + 7], "huge"), self.mkg(2 ** 32 + 5, [3 * 2 ** 32, 11, 0], "huge"),
+                self.mkg(2 ** 22, [4 * G], "huge"), self.mkg(16384, [40000], "small")]
+
+    def gen(self, rng, tier):
+        k = {"quick": 14, "thorough": 120, "search": 30}.get(tier, 14)
+        out = []
+        for _ in range(k):
+            total = rng.choice([2 ** 32, 2 ** 32 + 1, 2 ** 32 - 1, 5 * 2 ** 30 + rng.randrange(10 ** 6), 2 ** 33 + 7, 2 ** 40 + 3,
+                                rng.randrange(1, 2 ** 34), rng.randrange(1, 2 ** 20)])
+            lo = max(1, total // 500)
+            pl = rng.choice([lo + rng.randrange(1, 10 ** 6), 3 * 2 ** 20 if total // (3 * 2 ** 20) < 2000 else lo + 1,
+                             2 ** 32 if total >= 2 ** 32 else lo + 3, 2 ** 32 + 5 if total >= 2 ** 32 else lo + 5,
+                             1 << max(1, (total // 400).bit_length())])
+            nf = rng.choice([1, 1, 2, 3])
+            cuts = sorted(rng.randrange(0, total + 1) for _ in range(nf - 1))
+            lens = [b - a for a, b in zip([0] + cuts, cuts + [total])]
+            out.append(self.mkg(pl, lens, "huge" if total >= 2 ** 32 else "geometry"))
+        return out
+
+
 PROP = C03()
+PROP.parts = [PROP, C03Geom()]
